@@ -71,6 +71,19 @@ def adapt_of(n, c):
     return a.reshape(-1, a.shape[-1]).tolist()
 
 
+def adapt_tensor(mat, shape):
+    """[neuron][k] -> tensor shape x K"""
+    t = torch.tensor(mat, dtype=torch.float64)
+    return t.reshape(tuple(shape) + (t.shape[-1],))
+
+
+def set_adapt(n, c, t):
+    if c in (1, 3):
+        n.threshold_adaptation = t
+    else:
+        n.current_adaptation = t
+
+
 def snapshot(n, c, B, nneur, ret):
     ad = adapt_of(n, c)
     return [
@@ -111,6 +124,26 @@ def run_case(case):
                 tr.append([0] + snapshot(n, c, B, nneur, None))
             elif op[0] == "train":
                 n.train(op[1])
+                tr.append([0] + snapshot(n, c, B, nneur, None))
+            elif op[0] == "set_adapt":          # public setter
+                set_adapt(n, c, adapt_tensor(op[1], shape))
+                tr.append([0] + snapshot(n, c, B, nneur, None))
+            elif op[0] == "add_adapt":          # in-place edit of the state tensor (no setter involved)
+                (n.threshold_adaptation if c in (1, 3) else n.current_adaptation).add_(adapt_tensor(op[1], shape))
+                tr.append([0] + snapshot(n, c, B, nneur, None))
+            elif op[0] == "set_v":
+                n.voltage = to_batch_major(op[1], shape, B)
+                tr.append([0] + snapshot(n, c, B, nneur, None))
+            elif op[0] == "set_r":
+                n.refrac = to_batch_major(op[1], shape, B)
+                tr.append([0] + snapshot(n, c, B, nneur, None))
+            elif op[0] == "load":               # checkpoint restore from a twin built with the same hyperparameters
+                tw = build(case)
+                tw.voltage = to_batch_major(op[1], shape, B)
+                tw.refrac = to_batch_major(op[2], shape, B)
+                if c in (1, 3, 5, 7):
+                    set_adapt(tw, c, adapt_tensor(op[3], shape))
+                n.load_state_dict(tw.state_dict())
                 tr.append([0] + snapshot(n, c, B, nneur, None))
             else:
                 raise AssertionError(op[0])
